@@ -472,7 +472,7 @@ func (prop) Generate(r *core.RNG, tier string) []json.RawMessage {
 	}
 	nMod, nEn := 150, 600
 	if tier == "thorough" {
-		nMod, nEn = 1500, 5000
+		nMod, nEn = 2400, 6000
 	}
 	lat := latticeCases("deep", "deepcopy")
 	if tier == "thorough" {
@@ -497,6 +497,18 @@ func (prop) Generate(r *core.RNG, tier string) []json.RawMessage {
 		}
 	}
 	return out
+}
+
+// Extra: nothing to run; records that the thorough tier enumerates its two small scopes completely.
+func (prop) Extra(r *core.RNG, tier string, scratch string) ([]string, []string, map[string]any) {
+	st := map[string]any{"exhaustive": tier == "thorough", "executions_per_module": 3}
+	if tier == "thorough" {
+		st["exhaustive_scopes"] = []string{
+			"enabling tag {absent, on, =true, =false, :sub, :sub=false, =false+:sub} at each of (global, package doc, declaration doc), for generator deep next to deepcopy and vice versa: 2 x 49 modules x 7 types, each executed in 3 fresh processes",
+			"IsGeneratorEnabled on every map over {gengo:deep, gengo:deepcopy, gengo:deep:a, gengo:deepcopy:a, gengo:de} x {absent, [\"\"], [true], [false], [fal,se]} for g in {deep, deepcopy, de}: 9375 maps x 24 calls",
+		}
+	}
+	return nil, nil, st
 }
 
 // ---- shrinking ----
